@@ -163,6 +163,16 @@ Theorem history_requests_parse : forall evs cur,
                      end) (spec cur evs).
 Proof. exact spec_parses. Qed.
 
+(* the Host line depends on nothing but the PEER address text as the socket reports it
+   (connected_host = getpeername()[0], the argument of EConnect) - not on how the address was
+   advertised or stored: brackets iff that text contains ':'; and it reads back to exactly that text *)
+Theorem host_header_of_peer : forall h,
+    host_header h = if mem_N 58 h then lit "Host: [" ++ h ++ lit "]" else lit "Host: " ++ h.
+Proof. exact host_header_peer. Qed.
+
+Theorem host_header_names_peer : forall h, wf_host h = true -> parse_hostline (host_header h) = Some h.
+Proof. exact host_header_parses_to_peer. Qed.
+
 (* non-vacuity: connect to an IPv4 peer, GET; pair-verify done; a 2500-byte PUT (3 chunks = 6
    writelines items, counter 0 -> 3); connection lost: a request raises; reconnect to a scoped
    IPv6 peer: the next request names the NEW peer in brackets *)
@@ -200,3 +210,5 @@ Print Assumptions history_single_call.
 Print Assumptions handoff_connected.
 Print Assumptions handoff_disconnected.
 Print Assumptions history_requests_parse.
+Print Assumptions host_header_of_peer.
+Print Assumptions host_header_names_peer.
